@@ -63,7 +63,7 @@ def main():
     muts = []
     import glob
     for f in sorted(glob.glob(os.path.join(HERE, "mutants", "*.json"))):
-        if os.path.basename(f) == "results.json":
+        if os.path.basename(f).startswith("results"):
             continue
         muts += json.load(open(f))["mutants"]
     work = []
